@@ -277,11 +277,12 @@ prop('C19', opts={'threads': True, 'abstract_fp': True}, race_replay=True,
                  'splits': [{'C': c, 'K': 1, 'w.s': 0} for c in (1, 2)],
                  'params': {'thorough': {'MaxC': 2, 'MaxK': 1, 'Readers': 3}}, 'covers': ['joined']},
                 {'name': 'C19_Writers', 'types': {'quick': ['int8', 'float64'], 'thorough': QUICK_T},
-                 'params': {'quick': {'MaxC': 2, 'MaxK': 2}, 'thorough': {'MaxC': 3, 'MaxK': 3}}, 'covers': ['joined', '@par-joined']}] +
+                 'splits': {'quick': [{'C': c} for c in (1, 2)], 'thorough': [{'C': c, 'K': k} for c in (1, 2, 3) for k in (1, 2)]},
+                 'params': {'quick': {'MaxC': 2, 'MaxK': 2}, 'thorough': {'MaxC': 3, 'MaxK': 2}}, 'covers': ['joined', '@par-joined']}] +
      [{'name': 'C19_Conv_' + fn, 'types': {'quick': big_pairs(fn)[:1], 'thorough': conv_pairs(fn, 2) + big_pairs(fn)},
        'params': {'quick': {'MaxC': 2, 'MaxK': 2}, 'thorough': {'MaxC': 2, 'MaxK': 2}}, 'covers': ['joined']} for fn in CONVS],
      bounds={'quick': 'conversion sources: 2 goroutines converting one shared window into their own destinations (all nine conversions); readers: 2 goroutines, each running every read-only entry point (getters, Sample, Read, ReadStriped, Slice, Channel view, BufferIndex) with arbitrary arguments on one shared window of a buffer with 1..2 channels, 1..2 frames; writers: frame ranges [0,a) [a,b) [b,K) for every a<=b<=K<=2, two writers (Write / WriteStriped / SetSample loops / channel-view SetSample) and one reader; all orders of the goroutines; every pair of logged accesses checked for an unordered conflict',
-             'thorough': '2 readers for 5 element types; 3 readers on 1-frame buffers; writers with 1..3 channels and 1..3 frames; 4 type pairs per conversion source'},
+             'thorough': '2 readers for 5 element types; 3 readers on 1-frame buffers; writers with 1..3 channels and 1..2 frames; 4 type pairs per conversion source'},
      level_note='Goroutines contain no synchronisation, so every cross-goroutine access pair is concurrent: race freedom is decided by a solver query per pair of accesses to the same object (can the two index expressions be equal?), results are compared with the sequential run. 16 goroutines add no pair types beyond those of 2-3 goroutines running the same entry points but are formally outside the bound.',
      outside=['more than 3 goroutines', 'larger shapes'])
 
